@@ -125,11 +125,29 @@ def run_termination_case(ctx, res, spec, lines, post):
     """fit() with each termination cause; entries recorded vs the Lean fitLoop on the observed error sequence"""
     rng = random.Random(spec['seed'] + 17)
     causes = ['max_iter', 'exhaust', 'tol', 'time']
+    import shutil, tempfile
     for cause in causes:
-        system = sc.build_system(spec)
+        # the termination tests are the same when progress is saved to a root directory every few iterations
+        root = tempfile.mkdtemp(prefix='amisc_c08_') if cause in ('max_iter', 'tol') and rng.random() < 0.6 else None
+        try:
+            _termination_cause(ctx, res, spec, lines, post, rng, cause, root)
+        finally:
+            if root:
+                import logging
+                logging.shutdown()
+                shutil.rmtree(root, ignore_errors=True)
+    res.case(('term', str(spec)), True, {'spec': spec, 'causes': causes})
+
+
+def _termination_cause(ctx, res, spec, lines, post, rng, cause, root):
+    if True:
+        system = sc.build_system(spec, root_dir=root)
         np.random.seed(spec['seed'] % 2 ** 31)
         k = rng.randint(3, 7)
         kw = dict(num_refine=30)
+        if root:
+            kw.update(save_interval=rng.choice([2, 3]), plot_interval=0)
+            res.hit('termination-with-root-dir-and-save-interval')
         if cause in ('exhaust', 'max_iter') and rng.random() < 0.6:
             kw['targets'] = [spec['comps'][0]['out']]   # candidates of downstream components then have indicator exactly 0
         if cause == 'max_iter':
@@ -195,12 +213,11 @@ def run_termination_case(ctx, res, spec, lines, post):
                 toks2 = ['a:nan' if np.isnan(h['added_error']) else 'a:' + rat_str(h['added_error']) for h in hist2[n0:]]
                 if full2:
                     toks2.append('n')
-                lines.append(f'ref.fit {n0 + k2} -1000000 {n0} 0 | ' + ' '.join(toks2))
+                lines.append(f'ref.fitcall {k2} -1000000 {n0} | ' + ' '.join(toks2))
                 post.append(('fit', info2, len(hist2)))
                 res.hit('continued-fit-call')
                 if full2:
                     break
-    res.case(('term', str(spec)), True, {'spec': spec, 'causes': causes})
 
 
 def run_zero_surrogate_case(ctx, res):
